@@ -240,8 +240,8 @@ func (its *jsonPrimitive) getTargetFromPatch(path string) (jsonType, string, err
 	paths := strings.Split(path, "/")
 
 	// a JSON pointer is either empty (the whole document, which cannot be patched as a member) or begins with '/'
-	if len(paths) < 2 {
-		return nil, "", errors.DatatypeInvalidPatch.New(its.common.L(), "incorrect path: %v", path)
+	if len(paths) < 2 || paths[0] != "" {
+		return nil, "", errors.DatatypeInvalidPatch.New(its.common.L(), "incorrect path: "+path)
 	}
 	for i, token := range paths { // RFC 6901: '~1' stands for '/', '~0' for '~'
 		paths[i] = strings.ReplaceAll(strings.ReplaceAll(token, "~1", "/"), "~0", "~")
